@@ -404,7 +404,7 @@ package tds
 //@   requires [readable] ch.$readable
 //@ func (*EnvChangePackageField).ReadFrom returns (n, err) inline
 //@   requires [readable] ch.$readable
-//@   requires [zero-member] field.NewValue == "" && field.OldValue == ""
+//@   requires [call-zero-member] field.NewValue == "" && field.OldValue == ""
 
 //@ func NewPacketQueue returns (q)
 //@   modifies
